@@ -152,6 +152,7 @@ class Kernel:
         self.h = hashlib.sha256()
         self.sw_h = hashlib.sha256()
         self.sw_pairs = set()
+        self.sw_locs = {}
         self.probes = {}
         self.line_hook = None  # optional callable(frame) for rare-branch probes
 
@@ -283,6 +284,7 @@ class Kernel:
         self.sw_h.update(("%s@%s>%s@%s|" % (me.name, me.loc, nxt.name, nxt.loc)).encode())
         if len(self.sw_pairs) < 4096:
             self.sw_pairs.add((me.loc, nxt.loc))
+        self.sw_locs[me.loc] = self.sw_locs.get(me.loc, 0) + 1
         self.current = nxt
         if nxt.state == BLOCKED:
             nxt.state = RUNNABLE
